@@ -89,6 +89,8 @@ func (w *bvWorld) checkTx(pfx string, tx *transaction.Transaction, iss []bvIssVi
 			if d == "" {
 				if bvVerifySurjectionOnChain(o.SurjectionProof, tagsL, o.Asset) {
 					d, k = "issuance-order", true
+				} else if bvVerifySurjectionOnChain(o.SurjectionProof, w.chainTagsView(tx, false, true), o.Asset) {
+					d, k = "null-issuance-amount", true
 				} else {
 					d = "other"
 				}
